@@ -5,6 +5,8 @@ from __future__ import annotations
 import ast
 from itertools import product
 
+import numpy as np
+
 from .. import AnalysisError
 from ..astutil import deref, names_in, raises_class, straightline_def, walk_stmts
 from ..consteval import ConstEval, NotConstant
@@ -18,14 +20,16 @@ EXPLANATION = (
     "set_four_index_element are exactly the 8-element orbit of (i,j,k,l) under the physicists'-notation "
     "symmetry group, all unconditional, same array, same value; (R2) STRTOBOOL, evaluated from the AST, "
     "equals the documented vocabulary, the lookup key is value.lower() and a miss raises ValueError; "
-    "(R3) every return of volume() is a norm or an absolute value and the fall-through raises ValueError; "
+    "(R3) volume(), evaluated on symbolic cell vectors (shapes (3,), (1,3), (2,3), (3,3)), returns the "
+    "non-negative root of the Gram determinant det(A A^T) (norm / |cross| / |det| / sqrt|det G| all reduce to it "
+    "as polynomials in the components), and raises ValueError for zero or four vectors; "
     "(R4) check_dm tests both bounds with the eps/occ_max parameters and each raises ValueError; (R5) "
     "derive_naturals passes the overlap as the metric of scipy.linalg.eigh and returns (vectors, values). "
     "Declined: orthonormality, reconstruction of the density matrix, eigenvalue accuracy and volume values "
     "(numerical results)."
 )
-TECHNIQUE += '; component-selection scan in volume()'
-EXPLANATION += ' R3 also requires volume() to use whole cell vectors only (no Cartesian component singled out: rotation invariance).'
+TECHNIQUE += '; symbolic evaluation of volume() (polynomial identity with the Gram determinant)'
+EXPLANATION += ' R3 thereby implies rotation invariance and independence of the order / handedness of the vectors; the numerical value is not computed.'
 EXPLANATION += " R5 also rejects overwrite_a/overwrite_b=True on the caller's matrices and accepts the transposed (symmetric) overlap as metric."
 TECHNIQUE += '; evaluation of set_four_index_element and check_dm'
 EXPLANATION += ' R1 evaluates set_four_index_element for all 256 index tuples of a 4x4x4x4 symbolic array (exactly the symmetry orbit is written); R4 evaluates check_dm with stubbed natural occupations on 120 (eps, occ_max, min, max) combinations around both bounds.'
@@ -50,11 +54,82 @@ def _orbit():
     return seen
 
 
+def _root_form(v):
+    """A value as (P, k): the non-negative k-th root of the polynomial P; k = 1 means the signed polynomial itself."""
+    from ..symarr import OPAQUE_ARGS, Sym
+
+    v = Sym.const(v)
+    if len(v.terms) == 1:
+        (mono, coef), = v.terms.items()
+        if coef == 1 and len(mono) == 1 and mono[0][1] == 1 and mono[0][0] in OPAQUE_ARGS:
+            fname, arg = OPAQUE_ARGS[mono[0][0]]
+            p, k = _root_form(arg)
+            if fname == "sqrt":
+                return p, 2 * k
+            if fname == "abs":
+                return (p * p, 2) if k == 1 else (p, k)
+            return None
+    for mono in v.terms:
+        for name, _ in mono:
+            if name in OPAQUE_ARGS:
+                return None  # a mixed expression of roots: not decided here
+    return v, 1
+
+
+def _check_volume(ctx):
+    """R3 by evaluation: volume() on symbolic cell vectors (one, two, three rows) returns the non-negative root of
+    the Gram determinant det(A A^T) -- length, area, volume; orientation- and rotation-independent by construction --
+    and rejects every other shape with ValueError."""
+    from ..accessors import AccessorEval, Raised
+    from ..symarr import NotSymbolic, Sym, _det, sym_array
+
+    prog = ctx.prog
+    vf = prog.func("iodata.utils.volume")
+    cases = [("one vector, shape (3,)", (3,)), ("one vector, shape (1, 3)", (1, 3)), ("two vectors", (2, 3)), ("three vectors", (3, 3))]
+    for label, shape in cases:
+        a = sym_array("a", shape)
+        rows = a.reshape(-1, 3)
+        gram = _det(np.dot(rows, rows.T))
+        try:
+            val = AccessorEval(prog, None).run_free(vf, [a], {})
+        except Raised as exc:
+            ctx.violate("R3", f"volume() of {label} raises {exc.args[0]}", vf, vf.node, construct=f"volume {label}: raises")
+            continue
+        except NotSymbolic as exc:
+            raise AnalysisError(f"volume() is outside the evaluation whitelist: {exc}") from exc
+        form = None if isinstance(val, np.ndarray) and val.size != 1 else _root_form(val.item() if isinstance(val, np.ndarray) else val)
+        if form is None:
+            raise AnalysisError(f"volume() of {label} returns `{val!r}`, which is not a root of a polynomial in the cell-vector components")
+        p, k = form
+        if k == 1:
+            ctx.violate("R3", f"volume() of {label} returns the signed quantity `{p!r}`: a left-handed or permuted cell gives a negative volume", vf, vf.node, construct=f"volume {label}: signed")
+            continue
+        want = gram
+        for _ in range(k // 2 - 1):
+            want = want * gram
+        if k in (2, 4) and p == want:
+            ctx.ok("R3", f"{label}: the result is the non-negative root of the Gram determinant det(A A^T)", vf.where)
+        else:
+            ctx.violate("R3", f"volume() of {label} is the {k}-th root of `{str(p)[:80]}`, which is not the Gram determinant det(A A^T) of the cell vectors (the length / area / volume they span)", vf, vf.node, construct=f"volume {label}: not the Gram determinant")
+    for label, shape in [("four vectors", (4, 3)), ("no vector", (0, 3))]:
+        try:
+            val = AccessorEval(prog, None).run_free(vf, [sym_array("a", shape)], {})
+        except Raised as exc:
+            if exc.args[0] == "ValueError":
+                ctx.ok("R3", f"{label}: ValueError", vf.where)
+            else:
+                ctx.violate("R3", f"volume() of {label} raises {exc.args[0]}, documented ValueError", vf, vf.node, construct=f"volume {label}: {exc.args[0]}")
+            continue
+        except NotSymbolic as exc:
+            raise AnalysisError(f"volume() is outside the evaluation whitelist: {exc}") from exc
+        ctx.violate("R3", f"volume() of {label} returns a value instead of raising ValueError", vf, vf.node, construct=f"volume {label}: no error")
+
+
 def run(ctx):
     prog = ctx.prog
     ce = ConstEval(prog)
     ctx.clauses_decided = ["R1 eight-fold symmetry", "R2 boolean vocabulary", "R3 volume non-negative", "R4 check_dm two-sided", "R5 generalized eigenproblem wiring"]
-    ctx.clauses_declined = ["orthonormality / reconstruction / eigenvalue accuracy (numerical)", "volume values (numerical)"]
+    ctx.clauses_declined = ["orthonormality / reconstruction / eigenvalue accuracy (numerical)", "floating-point accuracy of volume() (numerical)"]
 
     # ------------------------------------------------------------------ R1
     ctx.rule("R1", "set_four_index_element fills exactly the 8 symmetry-equivalent positions", "a missing/duplicated/wrong index tuple leaves a symmetry-equivalent element unset or overwrites an unrelated one")
@@ -117,42 +192,7 @@ def run(ctx):
 
     # ------------------------------------------------------------------ R3
     ctx.rule("R3", "volume() returns a non-negative quantity", "a left-handed or permuted cell gives a negative volume")
-    vf = prog.func("iodata.utils.volume")
-    rets = [n for n in vf.own_nodes() if isinstance(n, ast.Return)]
-    for r in rets:
-        e = deref(vf, r.value) if r.value is not None else None
-        good = False
-        if isinstance(e, ast.Call):
-            rr = prog.resolve_expr(vf, vf.module, e.func)
-            good = bool(rr and rr[0] == "external" and rr[1] in ABS_FUNCS)
-        if good:
-            ctx.ok("R3", f"returns {src_of(e)[:50]}", f"{vf.module.relpath}:{r.lineno}")
-        else:
-            ctx.violate("R3", "volume() returns a value that is not a norm or an absolute value (can be negative)", vf, r)
-    last = vf.body[-1]
-    if isinstance(last, ast.Raise) and raises_class(last) == "ValueError":
-        ctx.ok("R3", "wrong shape falls through to raise ValueError", f"{vf.module.relpath}:{last.lineno}")
-    else:
-        ctx.violate("R3", "volume() does not end in raise ValueError for unsupported shapes", vf, last)
-    ctx.floor("R3", len(rets), 3, "return statements of volume")
-    # the value is built from rotation invariants of whole vectors: selecting Cartesian components (a tuple index or a
-    # second subscript on the vector array) makes the result depend on the orientation of the cell
-    vparam = vf.posparams[0]
-    comp = []
-    for n in vf.own_nodes():
-        if isinstance(n, ast.Subscript) and isinstance(n.ctx, ast.Load):
-            base = n.value
-            if isinstance(base, ast.Name) and base.id == vparam and isinstance(n.slice, ast.Tuple):
-                comp.append(n)
-            elif isinstance(base, ast.Subscript) and isinstance(base.value, ast.Name) and base.value.id == vparam:
-                comp.append(n)
-            elif isinstance(base, ast.Attribute) and base.attr == "T" and isinstance(base.value, ast.Name) and base.value.id == vparam:
-                comp.append(n)
-    if comp:
-        for n in comp:
-            ctx.violate("R3", f"volume() selects Cartesian components `{src_of(n)}`: the result is no longer invariant under rotation of the cell (a slab that is not in the xy-plane gets a wrong area)", vf, n)
-    else:
-        ctx.ok("R3", "volume() uses whole cell vectors only (norm, cross, det): no Cartesian component is singled out", vf.where)
+    _check_volume(ctx)
 
     # ------------------------------------------------------------------ R4
     ctx.rule("R4", "check_dm rejects occupations below -eps or above occ_max + eps, and nothing else", "an unphysical density matrix passes, or a valid one is rejected, at another threshold than requested")
